@@ -284,7 +284,7 @@ def book_own(repo: Repo) -> List[Ob]:
     P = ("C13",)
     n_reg = 0
     n_idx = 0
-    for fi in repo.all_functions():
+    for fi in repo.scan_functions():
         if not fi.module.name.startswith("photon_weave"):
             continue
         for n in walk_no_nested(fi.node):
